@@ -56,7 +56,7 @@ HOT_NAMES = ["canary_unimported.func", "canary_unimported.VALUE", "canary_unimpo
              "canary_imported.ListSub", "os.system", "antigravity.fly", "this.s"]
 
 TAG_CH = set("ABCDEFGHIJKLMNOPQRSTUVWXYZabcdefghijklmnopqrstuvwxyz0123456789-;/?:@&=+$_.~*'()")
-SCALAR_TEXTS = ["", "a", "1", "2.5", "true", "~", "2001-01-01", "x y", "k", "v", "0x1F", "[1]", "os.system", "1+2j", "abc"]
+SCALAR_TEXTS = ["", "a", "1", "2.5", "true", "~", "2001-01-01", "x y", "k", "v", "0x1F", "[1]", "os.system", "1+2j", "abc", "app"]
 
 
 def uri_escape(s):
@@ -215,7 +215,8 @@ def tagrefs(families, names=None, weight_foreign=3):
     fams = st.sampled_from(families)
     py = st.tuples(st.just("py"), forms, fams, names)
     pyval = st.tuples(st.just("py"), forms, st.sampled_from(VALUE_TAGS), st.just(""))
-    other = st.sampled_from([("local", "!foo"), ("local", "!python/object:os.system"), ("uri", "tag:example.com,2000:x"),
+    other = st.sampled_from([("local", "!foo"), ("local", "!python/object:os.system"), ("local", "!app-c"), ("local", "!app-m/x"),
+                             ("local", "!app-c2"), ("local", "!app-m2/x"), ("uri", "tag:example.com,2000:x"),
                              ("uri", "tag:yaml.org,2002:python"), ("uri", "tag:yaml.org,2002:python/"),
                              ("uri", "tag:yaml.org,2002:python/object"), ("uri", "tag:yaml.org,2002:yaml"), ("bang",),
                              ("uri", "tag:yaml.org,2002:Python/name:os.system"), ("uri", "tag:yaml.org,2002:str2")])
